@@ -527,6 +527,10 @@ func ruleActorInstallThenNotify(p *Program, r *Report) {
 				}
 			}
 			if evalCall == nil || withCall == nil {
+				// the update step may be a function that takes the state and the request and returns the new state
+				if transformerInstallThenNotify(p, r, ai, upd, globalPhi, c.recv, inCase) {
+					continue
+				}
 				r.Undecided("install", "request Eval call or Scope.With call not found in the update branch", c.body.Instrs[0].Pos())
 				continue
 			}
@@ -1177,3 +1181,100 @@ func ruleMailboxesUnbuffered(p *Program, r *Report) {
 }
 
 func init() { register("C17", Rule{"R17i", ruleMailboxesUnbuffered}) }
+
+// transformerInstallThenNotify is R17c for an update step extracted into a function U(state, request, …) that
+// returns the new state: the loop variable's edge from the update case is U's result; inside U the installed scope is
+// <state parameter>.With(…, this request's evaluation result); watchers are notified with that scope after it is
+// built; every return after the installation returns it and every other return hands the state parameter back.
+func transformerInstallThenNotify(p *Program, r *Report, ai *actorInfo, upd *ssa.Function, globalPhi *ssa.Phi, recv ssa.Value, inCase func(*ssa.BasicBlock) bool) bool {
+	var step *ssa.Call
+	stateIdx := -1
+	for _, b := range ai.root.Blocks {
+		if !inCase(b) {
+			continue
+		}
+		for _, ins := range b.Instrs {
+			c, ok := ins.(*ssa.Call)
+			if !ok {
+				continue
+			}
+			g := c.Call.StaticCallee()
+			if g == nil || !InRepo(g) || g.Blocks == nil || !strings.HasSuffix(c.Type().String(), "rel.Scope") {
+				continue
+			}
+			usesReq := false
+			si := -1
+			for i, a := range c.Call.Args {
+				if a == ssa.Value(globalPhi) {
+					si = i
+				}
+				if DependsOn(a, func(v ssa.Value) bool { return v == recv }) {
+					usesReq = true
+				}
+			}
+			if usesReq && si >= 0 {
+				step, stateIdx = c, si
+			}
+		}
+	}
+	if step == nil {
+		return false
+	}
+	U := step.Call.StaticCallee()
+	r.Fn(FnName(U))
+	state := U.Params[stateIdx]
+	// the loop continues with U's result
+	for i, e := range globalPhi.Edges {
+		pred := globalPhi.Block().Preds[i]
+		if inCase(pred) {
+			r.Check(e == ssa.Value(step), "carries-installed", "the next iteration sees the state returned by the update step", "after an update the loop continues with a scope other than the one the update step returned", step.Pos())
+		}
+	}
+	var evalCall, withCall *ssa.Call
+	ForEachInstr(U, func(ins ssa.Instruction) {
+		call, ok := ins.(*ssa.Call)
+		if !ok {
+			return
+		}
+		if call.Call.IsInvoke() && call.Call.Method.Name() == "Eval" {
+			evalCall = call
+		}
+		if callee := call.Call.StaticCallee(); callee != nil && InRepo(callee) && evalCall == nil {
+			res := callee.Signature.Results()
+			if res.Len() == 2 && isErrorType(res.At(1).Type()) && strings.HasSuffix(res.At(0).Type().String(), "rel.Value") {
+				evalCall = call
+			}
+		}
+		if callee := call.Call.StaticCallee(); callee != nil && callee.Name() == "With" && strings.HasSuffix(call.Type().String(), "rel.Scope") {
+			withCall = call
+		}
+	})
+	if evalCall == nil || withCall == nil {
+		return false
+	}
+	r.Check(DependsOn(withCall, func(v ssa.Value) bool { return v == ssa.Value(evalCall) }) && DependsOn(withCall.Call.Args[0], func(v ssa.Value) bool { return v == ssa.Value(state) }),
+		"installs-eval-result", "the installed scope is state.With(…, value of this request)", "the scope installed by the update step is not built from the previous scope and this request's value", withCall.Pos())
+	n := 0
+	for _, call := range callsTo(U, upd) {
+		n++
+		arg := call.Call.Args[len(call.Call.Args)-1]
+		r.Check(arg == ssa.Value(withCall), fmt.Sprintf("notify-new-state~%d", n), "watchers are sent the newly installed scope", "a watcher is notified with a scope that is not the newly installed one (stale or not yet installed state)", call.Pos())
+		r.Check(InstrDominates(withCall, call), fmt.Sprintf("notify-after-install~%d", n), "notification follows installation", "a watcher is notified before the new state is installed", call.Pos())
+	}
+	if n == 0 {
+		r.Viol("notifies", "the update step does not notify the watchers", U.Pos())
+	}
+	ForEachInstr(U, func(ins ssa.Instruction) {
+		ret, ok := ins.(*ssa.Return)
+		if !ok || len(ret.Results) != 1 || ret.Block() == U.Recover {
+			return
+		}
+		rv := RetVal(ret, 0)
+		if withCall.Block() == ret.Block() || withCall.Block().Dominates(ret.Block()) {
+			r.Check(rv == ssa.Value(withCall), "returns-installed", "the step returns the installed scope", "after a successful update the step returns a scope other than the one shown to the watchers", ret.Pos())
+		} else {
+			r.Check(rv == ssa.Value(state), "failed-update-unchanged", "a failed update hands the state back unchanged", "the failing path of the update step changes the database state", ret.Pos())
+		}
+	})
+	return true
+}
